@@ -805,9 +805,12 @@ func suiteDateFun(o *Out, thorough bool, seed int64) {
 		switch r.Intn(4) {
 		case 0:
 			ev("[year("+dt+"), month("+dt+"), day("+dt+"), weekDay("+dt+"), millSecond("+dt+")]", off, "-")
+			ev("timeFormat("+dt+", '2006-01-02 Mon Jan _2 002 15:04:05 -07:00 06 1/2 3PM')", off, "-")
+			ev("timeFormat(useTimezone("+dt+", 'Etc/GMT-8'), 'Monday, 02-January-2006 15:04 Z0700')", off, "-")
 		case 1:
 			sh := fmt.Sprintf("addDate(%s, %d, %d, %d)", dt, r.Intn(21)-10, r.Intn(61)-30, r.Intn(801)-400)
 			ev("[year("+sh+"), month("+sh+"), day("+sh+"), hour("+sh+"), millSecond("+sh+")]", off, "-")
+			ev("timeFormat("+sh+", 'Jan 2 2006 __2') + '|' + timeFormat("+dt+", '01-02')", off, "-")
 		case 2:
 			// a time of day from the data map
 			ns := new(big.Int).Mul(big.NewInt(r.Int63n(4e9)-1e9), big.NewInt(1000000000))
